@@ -277,6 +277,37 @@ func (w *VWorld) Exec(o VOp) trace.M {
 		switch {
 		case o.Route == "top":
 			msgs = []sdk.Msg{vm}
+		case strings.HasPrefix(o.Route, "sib_"):
+			// sib_<pre>_<outer>_<d>: harmless siblings first (s = plain send, x = MsgExec{send}), then exec^d(creation);
+			// outer = 1: the whole list inside one more MsgExec
+			f := strings.Split(o.Route, "_")
+			if len(f) != 4 {
+				infra("bad sibling route %q", o.Route)
+			}
+			send := func() sdk.Msg {
+				return banktypes.NewMsgSend(signer.Acc(), w.Peer.Acc(), sdk.NewCoins(sdk.NewInt64Coin(chain.Denom, 1)))
+			}
+			for _, c := range f[1] {
+				switch c {
+				case 's':
+					msgs = append(msgs, send())
+				case 'x':
+					m := authz.NewMsgExec(signer.Acc(), []sdk.Msg{send()})
+					msgs = append(msgs, &m)
+				default:
+					infra("bad sibling route %q", o.Route)
+				}
+			}
+			inner := []sdk.Msg{vm}
+			for d := 0; d < int(f[3][0]-'0'); d++ {
+				m := authz.NewMsgExec(signer.Acc(), inner)
+				inner = []sdk.Msg{&m}
+			}
+			msgs = append(msgs, inner[0])
+			if f[2] == "1" {
+				m := authz.NewMsgExec(signer.Acc(), msgs)
+				msgs = []sdk.Msg{&m}
+			}
 		case strings.HasPrefix(o.Route, "exec"):
 			inner := []sdk.Msg{vm}
 			for d := 0; d < int(o.Route[4]-'0'); d++ {
